@@ -29,9 +29,9 @@ def signatures(n):
                 yield [(k, d.get(i, False)) for i, k in enumerate(ks)]
 
 
-def make(sig, method=False, self_po=False):
+def make(sig, method=False, self_po=False, no_self=False):
     names = ["p%d" % i for i in range(len(sig))]
-    parts = (["self", "/"] if self_po and not any(k == "PO" for k, _ in sig) else ["self"]) if method else []
+    parts = (["self", "/"] if self_po and not any(k == "PO" for k, _ in sig) else ["self"]) if method and not no_self else []
     seen_slash = False
     last_po = max([i for i, (k, _) in enumerate(sig) if k == "PO"], default=-1)
     star_done = any(k == "VARPOS" for k, _ in sig)
@@ -75,10 +75,12 @@ def search(n):
     from joblib.func_inspect import filter_args
     cases = accepted = 0
     known = {}
-    for sig, method in [(s, m) for s in signatures(n) for m in (False, True, "self-positional-only")]:
-        if method and len(sig) >= n:
+    for sig, method in [(s, m) for s in signatures(n) for m in (False, True, "self-positional-only", "no-self")]:
+        if method and method != "no-self" and len(sig) >= n:
             continue  # self counts as a parameter
-        f, names, src = make(sig, bool(method), self_po=(method == "self-positional-only"))
+        if method == "no-self" and not (sig and sig[0][0] == "VARPOS"):
+            continue  # a method without a parameter for the instance: def m(*args, ...) - the instance is the first surplus positional
+        f, names, src = make(sig, bool(method), self_po=(method == "self-positional-only"), no_self=(method == "no-self"))
         npos = sum(1 for k, _ in sig if k in ("PO", "POK"))
         kwnames = [nm for (k, _), nm in zip(sig, names) if k in ("PO", "POK", "KWONLY")]
         for a in range(0, npos + 2):
@@ -98,7 +100,7 @@ def search(n):
                             continue  # Python rejects the call: outside the property's domain
                         accepted += 1
                         exp = expected(sig, names, bound)
-                        if method:
+                        if method and method != "no-self":
                             exp["self"] = f.__self__
                         try:
                             got = filter_args(f, [], args, dict(kwargs))
